@@ -277,7 +277,7 @@ class AsyncRun:
                 out["ext"] = {k: v for k, v in resp.extensions.items() if k in ("http_version", "reason_phrase", "stream_id")}
                 tok = dict((k.lower(), v) for k, v in resp.headers).get(b"x-tok")
                 out["tok"] = tok.decode() if tok is not None else ""
-                self.event("Got", r=name, status=resp.status, tok=out["tok"])
+                self.event("Got", r=name, status=resp.status, tok=out["tok"], route=self.route_of(call), sent_on=self.streams_with_token(call.tok))
                 await self._gate(name, "read")
                 body = b""
                 out["body"] = body
@@ -346,6 +346,44 @@ class AsyncRun:
         if t is not None:
             en.append(("tick", t))
         return en
+
+    def streams_with_token(self, tok):
+        """Streams on which a peer has seen a request head carrying this caller's token."""
+        out = []
+        t = tok.encode()
+        for rec in self.net.streams:
+            peer = rec.peer
+            seen = False
+            while peer is not None and not seen:
+                for h in getattr(peer, "heads", []):
+                    if h.token == t:
+                        seen = True
+                peer = getattr(peer, "inner", None)
+            if seen:
+                out.append(rec.sid)
+        return out
+
+    def route_of(self, call):
+        """C10 on the ledger (direct connections): the request went to a stream established to
+        exactly its origin's host and port, TLS-wrapped iff the scheme is secure."""
+        if self.pool_kwargs.get("proxy") is not None:
+            return "ok"
+        try:
+            o = httpcore.URL(call.url).origin
+        except Exception:
+            return "ok"
+        sids = self.streams_with_token(call.tok)
+        if not sids:
+            return "ok"
+        for sid in sids:
+            rec = self.net.streams[sid]
+            if rec.kind != "tcp":
+                continue
+            if rec.host != o.host.decode() or rec.port != o.port:
+                return f"wrong-endpoint:{rec.host}:{rec.port}"
+            if bool(rec.tls) != (o.scheme in (b"https", b"wss")):
+                return "wrong-tls"
+        return "ok"
 
     def idle_streams(self):
         """Open streams whose owning connection currently reports idle."""
